@@ -19,15 +19,19 @@
     Windows x86-64 (record up to 240 bytes above `rbp`, probed in 16-byte steps) is covered by `Pre`
     and by the tie (generated chains with slack), not by a theorem: `walk_layout_fp_win` is stated
     below as a comment.
-  * canonical STACK CFI and scan-only chains — the precondition predicates `preCfi`, `preScan` are
-    defined and evaluated on every generated case, the tie compares `walk_stack`, the generated chain
-    and the model for all seven context kinds/modes, but the induction theorems are only stated
-    (comments `walk_layout_cfi`, `walk_layout_scan`); proved parts: `scanFrom_zeros` (a scan over
-    the zero words that end a generated stack finds nothing) and C05's `scanFrom_spec`.
+  * scan-only chains — PROVED for chains of ANY depth on ARM64 (both layouts) and MIPS64
+    (`walk_layout_scan`, `walk_layout_scan_concrete`; hypothesis `preScan`: junk words below 4096
+    that are not valid instructions, inside the 160/40-word (MIPS64: 128-word) window, then a valid
+    instruction; zero words at the end). On x86, x86-64 (frame-pointer recovery inside the scanner),
+    ARM32 and MIPS32 (4-word skip) the same statement is only sampled by the tie.
+  * canonical STACK CFI chains — the precondition `preCfi` is defined and evaluated on every
+    generated case, the tie compares `walk_stack`, the generated chain and the model for all seven
+    context kinds/modes, but the induction theorem is only stated (comment `walk_layout_cfi`).
   * STACK WIN, technique mixed per frame — not modelled / not generated (the `walk` engine of C05
     exercises mixed stacks against the model, without an expected chain).
 -/
 import MdProofs.Lemmas.WalkChain
+import MdProofs.Lemmas.WalkScanChain
 namespace MdModel.Walk
 open MdModel
 
@@ -164,15 +168,41 @@ theorem adjustments_and_widths :
     Arch.x86.ptr = 4 ∧ Arch.amd64.ptr = 8 ∧ Arch.arm.ptr = 4 ∧ Arch.arm64.ptr = 8 ∧ Arch.arm64old.ptr = 8 ∧
     Arch.mips32.ptr = 4 ∧ Arch.mips64.ptr = 8 := by decide
 
+/-- **C04, scan-only chains (any depth) on ARM64 (both layouts) and MIPS64.** In an environment
+    without CFI, for a context with all registers valid and a zero frame pointer: the walker returns
+    the context frame, then one `scan` frame per generated call with the generated return address
+    and stack pointer, lookup address `ret - adj`, and stops at the generated end of stack. -/
+theorem walk_layout_scan (env : Env) (a : Arch) (harch : env.arch = a) (ha : a.plainScan64 = true)
+    (hcfi : NoCfi env) (mem : Mem) (hm : mem.range?.isSome = true) (ctx : Ctx) (hv : ctx.valid = none)
+    (hfp : ctx.raw a a.fpName = 0) (h64 : a = .mips64 → ctx.m64 = true) (chain : List Exp)
+    (hpre : preScanFrom env a mem ctx.sp true chain = true) :
+    walk env (some mem) ctx = symbolise env (Frame.ofCtx ctx .context) :: expectedScan env a chain := by
+  have hused : (some mem).bind (fun m => m.range?.map fun _ => m) = some mem := by
+    obtain ⟨r, hr⟩ := Option.isSome_iff_exists.mp hm
+    simp [hr]
+  unfold walk
+  simp only [hused]
+  exact walkLoop_scan_chain ha harch hcfi chain (walkFuel mem) (Frame.ofCtx ctx .context) none ctx.sp true
+    (scan_view_context a ha ctx hv hfp h64) hpre (need_context_le mem ctx)
+
+theorem walk_layout_scan_concrete (a : Arch) (os : Os) (w : World) (mem : Mem) (ctx : Ctx) (chain : List Exp)
+    (ha : a.plainScan64 = true) (h64 : a = .mips64 → ctx.m64 = true)
+    (hpre : Pre w (mkEnv a os w mem) a os .scan mem ctx chain = true) :
+    walk (mkEnv a os w mem) (some mem) ctx =
+      symbolise (mkEnv a os w mem) (Frame.ofCtx ctx .context) :: expectedScan (mkEnv a os w mem) a chain := by
+  simp only [Pre, preScan, Bool.and_eq_true, Option.isNone_iff_eq_none, decide_eq_true_eq] at hpre
+  obtain ⟨hm, hno, ⟨⟨⟨_, hv⟩, hfp⟩, _⟩, hp⟩ := hpre
+  exact walk_layout_scan (mkEnv a os w mem) a rfl ha (mkEnv_noCfi a os w mem hno) mem hm ctx hv hfp h64 chain hp
+
 /-
   Stated, not proved (the tie checks them on every generated case; see the header):
 
   theorem walk_layout_fp_win : the same as `walk_layout_fp` with `a = .amd64`, `env.os = .windows`
       (`linkFp` then allows the record at `rbp + 16k`, `k ≤ 15`, with zero words at the smaller
       probe positions).
-  theorem walk_layout_scan (a : Arch) (os : Os) (w : World) (mem : Mem) (ctx : Ctx) (chain : List Exp) :
-      Pre w (mkEnv a os w mem) a os .scan mem ctx chain = true →
-      walk (mkEnv a os w mem) (some mem) ctx = context frame :: chain.map (scan frame of e)
+  theorem walk_layout_scan' : `walk_layout_scan` for x86, x86-64, ARM32 and MIPS32
+      (`Pre … .scan` already states their preconditions: junk below 4096 defeats the frame-pointer
+      recovery of the x86 scanners; MIPS32 skips 4 words on every frame but the first).
   theorem walk_layout_cfi (a : Arch) (os : Os) (w : World) (mem : Mem) (ctx : Ctx) (chain : List Exp) :
       Pre w (mkEnv a os w mem) a os .cfi mem ctx chain = true →
       walk (mkEnv a os w mem) (some mem) ctx = context frame :: chain.map (cfi frame of e)
